@@ -40,7 +40,7 @@ func C09(c *core.Ctx) {
 	c.Rule("C09-R1", "who-may-call: functions outside dsig that reference a JWS verify/payload routine must implement the containment check (R2)", 1)
 	c.Rule("C09-R2", "success of a JWS-touching function is control-dependent on Header.Contains(current, signed payload)", 2)
 	c.Rule("C09-R3", "Header.Contains compares every serialised field of head.Header on both headers", 7)
-	c.Rule("C09-R4", "every caller of a verification function heeds its error before any success marker", 4)
+	c.Rule("C09-R4", "every caller of a verification function heeds its error before any success marker", 1)
 	c.Rule("C09-R5", "Sign signs the header of the same envelope", 1)
 	c.Rule("C09-R6", "inside dsig, every success exit of a key-verifying function has just found the go-jose verification (or a dsig verifier it delegates to) error-free", 2)
 	c09KeysForwarded(c)
@@ -105,8 +105,30 @@ func C09(c *core.Ctx) {
 		refs []string
 	}
 	var referrers []referrer
+	// helpers outside dsig that only hand the checked payload back with a verdict (no verdict on
+	// the envelope of their own) count as protected routines: whoever calls them is the referrer
+	providers := map[*types.Func]bool{}
 	for _, fd := range p.AllFuncs() {
-		if fd.Obj.Pkg().Path() == dsigPath {
+		if fd.Obj.Pkg().Path() == dsigPath || p.IsTestFile(fd.Decl.Pos()) {
+			continue
+		}
+		direct := false
+		for _, g := range p.FuncRefs(fd.Obj) {
+			if isProt(g) != "" {
+				direct = true
+			}
+		}
+		if !direct {
+			continue
+		}
+		if k := c09ProviderKind(p, fd.Obj); k != "" {
+			protKind[fd.Obj] = k
+			providers[fd.Obj] = true
+			c.Ob("C09-R1", fd.Name(), fd.Decl.Pos(), true, "")
+		}
+	}
+	for _, fd := range p.AllFuncs() {
+		if fd.Obj.Pkg().Path() == dsigPath || providers[fd.Obj] {
 			continue
 		}
 		var refs []string
@@ -222,6 +244,7 @@ func c09Containment(c *core.Ctx, fd *core.FuncDecl) (bool, string) {
 	nSuccess := 0
 	allOK := true
 	why := ""
+	cld := core.NewLocalDefs(info, fd.Decl.Body)
 	for _, r := range ff.Flow.Returns() {
 		if !ff.Flow.Reachable(r) {
 			continue
@@ -229,6 +252,22 @@ func c09Containment(c *core.Ctx, fd *core.FuncDecl) (bool, string) {
 		k, _ := ff.ClassifyReturn(p, r)
 		if k == core.RetFailure {
 			continue
+		}
+		if k != core.RetSuccess && len(r.Results) == 1 {
+			// the verdict is a helper's: `return verifySignatureContents(current, sig)` — the helper is
+			// judged on its own
+			if call, ok := ast.Unparen(r.Results[0]).(*ast.CallExpr); ok {
+				if g := core.Callee(info, call); g != nil && g != fd.Obj && g.Pkg() == fd.Obj.Pkg() {
+					if gfd := p.DeclOf(g); gfd != nil && c09HasContains(gfd) && c09Depth < 3 {
+						c09Depth++
+						gok, _ := c09Containment(core.NewCtx("C09", c.Tier, c.Seed, p, c.VerifDir), gfd)
+						c09Depth--
+						if gok {
+							continue
+						}
+					}
+				}
+			}
 		}
 		if k != core.RetSuccess {
 			allOK = false
@@ -251,8 +290,19 @@ func c09Containment(c *core.Ctx, fd *core.FuncDecl) (bool, string) {
 				continue
 			}
 			se := ast.Unparen(g.Call.Fun).(*ast.SelectorExpr)
-			if f := core.FieldOf(info, se.X); f == nil || f.Name() != "Head" || core.RootVar(info, se.X) != recv || recv == nil {
-				continue
+			// the current header: <receiver>.Head, or a local that was set to it once (hd := e.Head)
+			cur := ast.Unparen(se.X)
+			if id, ok := cur.(*ast.Ident); ok {
+				if lv := core.VarOf(info, id); lv != nil && len(cld.All(lv)) == 1 {
+					cur = ast.Unparen(cld.Resolve(id, 2))
+				}
+			}
+			if f := core.FieldOf(info, cur); f == nil || f.Name() != "Head" || core.RootVar(info, cur) != recv || recv == nil {
+				// or a header parameter of an unexported helper that every call site gives the
+				// caller's own <receiver>.Head
+				if !c09CurrentHeaderParam(p, fd, cur) {
+					continue
+				}
 			}
 			if len(g.Call.Args) == 1 {
 				containsArg = core.RootVar(info, g.Call.Args[0])
@@ -267,12 +317,22 @@ func c09Containment(c *core.Ctx, fd *core.FuncDecl) (bool, string) {
 		}
 		// the compared header must be the payload of a call whose error was found nil
 		payloadKind := ""
-		for leaf := range ff.Flow.CondsAt(r) {
+		for leaf, lv := range ff.Flow.CondsAt(r) {
 			g := core.GuardOf(info, leaf, ff.Errs)
-			if g.Kind != "err" || g.Call == nil {
+			if g.Call == nil {
 				continue
 			}
-			if ff.ErrNilAt(r, g.Call) != 1 {
+			switch g.Kind {
+			case "err":
+				if ff.ErrNilAt(r, g.Call) != 1 {
+					continue
+				}
+			case "nil":
+				// the call's error compared with nil where it stands: `if sig.VerifyPayload(k, &h) != nil { continue }`
+				if lv == g.Neg {
+					continue // known non-nil
+				}
+			default:
 				continue
 			}
 			fn := core.Callee(info, g.Call)
@@ -282,6 +342,46 @@ func c09Containment(c *core.Ctx, fd *core.FuncDecl) (bool, string) {
 			for _, a := range g.Call.Args {
 				if core.RootVar(info, a) == containsArg {
 					if k := protKindOf(p, fn); k != "" {
+						payloadKind = k
+					}
+				}
+			}
+		}
+		if payloadKind == "" && containsArg != nil {
+			// the header comes from a helper of the package that hands back the payload together
+			// with a verdict: `h, ok := signedHeader(sig, k)` with ok found true here
+			for _, d := range cld.All(containsArg) {
+				call, isCall := ast.Unparen(d.RHS).(*ast.CallExpr)
+				if d.RHS == nil || !isCall || d.N != 2 || d.Idx != 0 {
+					continue
+				}
+				as, isAs := d.Stmt.(*ast.AssignStmt)
+				if !isAs || len(as.Lhs) != 2 {
+					continue
+				}
+				verdict := core.VarOf(info, as.Lhs[1])
+				if verdict == nil {
+					if id, ok := as.Lhs[1].(*ast.Ident); ok {
+						verdict, _ = info.Defs[id].(*types.Var)
+					}
+				}
+				okHere := false
+				for leaf, lv := range ff.Flow.CondsAt(r) {
+					if core.VarOf(info, leaf) == verdict && verdict != nil {
+						if b, isB := verdict.Type().Underlying().(*types.Basic); isB && b.Info()&types.IsBoolean != 0 && lv {
+							okHere = true
+						}
+					}
+					g := core.GuardOf(info, leaf, ff.Errs)
+					if (g.Kind == "nil" || g.Kind == "err") && g.X != nil && core.VarOf(info, g.X) == verdict && lv != g.Neg {
+						okHere = true // the error handed back was found nil
+					}
+				}
+				if !okHere {
+					continue
+				}
+				if fn := core.Callee(info, call); fn != nil {
+					if k := c09ProviderKind(p, fn); k != "" {
 						payloadKind = k
 					}
 				}
@@ -316,6 +416,10 @@ func c09Containment(c *core.Ctx, fd *core.FuncDecl) (bool, string) {
 					}
 					return true
 				})
+			}
+			if !zero && keys == nil && !fd.Obj.Exported() {
+				// a helper without key list: every call site stands where the caller's own list is empty
+				zero = c09CalledWithoutKeys(p, fd)
 			}
 			if !zero {
 				allOK = false
@@ -625,4 +729,186 @@ func c09InsideDsig(c *core.Ctx, protKind map[*types.Func]string, verifies map[*t
 			c.Ob("C09-R6", key, r.Pos(), ok, "a key-verifying function can report success on a path where no signature verification against the supplied key was found error-free (e.g. a remembered earlier result)")
 		}
 	}
+}
+
+// c09ProviderKind: a function outside dsig that hands back a header together
+// with a verdict (bool or error): every return with a positive verdict returns
+// the variable that was the payload argument of a protected dsig call whose
+// error was found nil at that return. The kind is that call's ("verify" /
+// "unsafe"); "" if the function is not such a provider.
+func c09ProviderKind(p *core.Program, fn *types.Func) string {
+	fd := p.DeclOf(fn)
+	if fd == nil || fd.Decl.Body == nil {
+		return ""
+	}
+	sig := fn.Type().(*types.Signature)
+	if sig.Results().Len() != 2 {
+		return ""
+	}
+	info := fd.Pkg.TypesInfo
+	ff := core.NewFuncFlow(fd)
+	kind := ""
+	for _, r := range ff.Flow.Returns() {
+		if !ff.Flow.Reachable(r) || len(r.Results) != 2 {
+			return ""
+		}
+		// a negative verdict: false, or a non-nil error
+		if tv, ok := info.Types[r.Results[1]]; ok && tv.Value != nil && tv.Value.String() == "false" {
+			continue
+		}
+		if _, isErr := sig.Results().At(1).Type().Underlying().(*types.Interface); isErr && !core.IsNil(info, r.Results[1]) {
+			continue
+		}
+		hv := core.RootVar(info, r.Results[0])
+		if hv == nil {
+			return ""
+		}
+		k := ""
+		for leaf, lv := range ff.Flow.CondsAt(r) {
+			g := core.GuardOf(info, leaf, ff.Errs)
+			if g.Call == nil {
+				continue
+			}
+			switch g.Kind {
+			case "err":
+				if ff.ErrNilAt(r, g.Call) != 1 {
+					continue
+				}
+			case "nil":
+				if lv == g.Neg {
+					continue
+				}
+			default:
+				continue
+			}
+			cf := core.Callee(info, g.Call)
+			if cf == nil {
+				continue
+			}
+			for _, a := range g.Call.Args {
+				if core.RootVar(info, a) == hv {
+					if pk := protKindOf(p, cf); pk != "" {
+						k = pk
+					}
+				}
+			}
+		}
+		if k == "" {
+			return ""
+		}
+		if kind == "" || k == "unsafe" {
+			kind = k
+		}
+	}
+	return kind
+}
+
+var c09Depth int
+
+// c09CurrentHeaderParam: e is a *head.Header parameter of the unexported
+// function fd, and at every call site of fd (same package) the argument is the
+// Head member of the calling method's receiver, directly or through a local
+// that was set to it once.
+func c09CurrentHeaderParam(p *core.Program, fd *core.FuncDecl, e ast.Expr) bool {
+	info := fd.Pkg.TypesInfo
+	pv := core.VarOf(info, e)
+	if pv == nil || fd.Obj.Exported() {
+		return false
+	}
+	idx, isParam := paramIndex(fd.Obj, pv)
+	if !isParam || idx < 0 || core.TypeString(pv.Type()) != "*head.Header" {
+		return false
+	}
+	n := 0
+	for _, cfd := range p.Funcs(fd.Pkg) {
+		if cfd.Decl.Body == nil || p.IsTestFile(cfd.Decl.Pos()) {
+			continue
+		}
+		crecv := recvVar(cfd)
+		cld := core.NewLocalDefs(info, cfd.Decl.Body)
+		bad := false
+		ast.Inspect(cfd.Decl.Body, func(nd ast.Node) bool {
+			call, ok := nd.(*ast.CallExpr)
+			if !ok || core.Callee(info, call) != fd.Obj || idx >= len(call.Args) {
+				return true
+			}
+			n++
+			a := ast.Unparen(call.Args[idx])
+			if id, ok := a.(*ast.Ident); ok {
+				if lv := core.VarOf(info, id); lv != nil && len(cld.All(lv)) == 1 {
+					a = ast.Unparen(cld.Resolve(id, 2))
+				}
+			}
+			if f := core.FieldOf(info, a); f == nil || f.Name() != "Head" || crecv == nil || core.RootVar(info, a) != crecv {
+				bad = true
+			}
+			return true
+		})
+		if bad {
+			return false
+		}
+	}
+	return n > 0
+}
+
+// c09CalledWithoutKeys: every call of the unexported helper fd stands in a
+// function that has a public-key list parameter, at a place where that list is
+// known to be empty (and the list was not replaced before).
+func c09CalledWithoutKeys(p *core.Program, fd *core.FuncDecl) bool {
+	info := fd.Pkg.TypesInfo
+	n := 0
+	for _, cfd := range p.Funcs(fd.Pkg) {
+		if cfd.Decl.Body == nil || p.IsTestFile(cfd.Decl.Pos()) {
+			continue
+		}
+		var calls []*ast.CallExpr
+		ast.Inspect(cfd.Decl.Body, func(nd ast.Node) bool {
+			if call, ok := nd.(*ast.CallExpr); ok && core.Callee(info, call) == fd.Obj {
+				calls = append(calls, call)
+			}
+			return true
+		})
+		if len(calls) == 0 {
+			continue
+		}
+		sig := cfd.Obj.Type().(*types.Signature)
+		var keys *types.Var
+		for i := 0; i < sig.Params().Len(); i++ {
+			pv := sig.Params().At(i)
+			if sl, ok := pv.Type().(*types.Slice); ok {
+				if nn, _ := core.StructOf(sl.Elem()); nn != nil && nn.Obj().Name() == "PublicKey" {
+					keys = pv
+				}
+			}
+		}
+		if keys == nil {
+			return false
+		}
+		reassigned := false
+		ast.Inspect(cfd.Decl.Body, func(nd ast.Node) bool {
+			if as, ok := nd.(*ast.AssignStmt); ok {
+				for _, l := range as.Lhs {
+					if core.VarOf(info, l) == keys {
+						reassigned = true
+					}
+				}
+			}
+			return true
+		})
+		if reassigned {
+			return false
+		}
+		ff := core.NewFuncFlow(cfd)
+		for _, call := range calls {
+			n++
+			node := ff.Flow.EnclosingNode(call)
+			if node == nil || ff.LenFactAt(node, func(e ast.Expr) bool {
+				id, ok := ast.Unparen(e).(*ast.Ident)
+				return ok && info.Uses[id] == keys
+			}) != -1 {
+				return false
+			}
+		}
+	}
+	return n > 0
 }
